@@ -78,7 +78,10 @@ func makeMux(dst string, option *ClientOption, dialFn dialFn) *mux {
 		return func(ctx context.Context) (w wire) {
 			w, err := pipeFn(ctx, connFn, option)
 			if err != nil {
-				dead.error.Store(&errs{error: err})
+				// report the dial error through the dead wire, unless the mux has been closed meanwhile
+				if old := dead.error.Load(); old != errClosed {
+					dead.error.CompareAndSwap(old, &errs{error: err})
+				}
 				w = dead
 			}
 			return w
@@ -408,6 +411,10 @@ func (m *mux) Store(w wire) {
 }
 
 func (m *mux) Close() {
+	if dead, ok := m.dead.(*pipe); ok {
+		// a dial error left in the dead wire would be taken for a broken connection and let the closed mux dial again
+		dead.error.Store(errClosed)
+	}
 	for i := 0; i < len(m.muxwires); i++ {
 		if prev := m.muxwires[i].wire.Swap(m.dead).(wire); prev != m.init && prev != m.dead {
 			prev.Close()
